@@ -1,7 +1,9 @@
 package an
 
 import (
+	"fmt"
 	"go/token"
+	"os"
 
 	"golang.org/x/tools/go/ssa"
 )
@@ -148,6 +150,13 @@ func CellValue(a *ssa.Alloc) (ssa.Value, bool) {
 // cell (a closure capturing it) intervenes. Otherwise v itself.
 func Resolve(v ssa.Value) ssa.Value {
 	for i := 0; i < 16; i++ {
+		if ph, isPhi := v.(*ssa.Phi); isPhi {
+			if r := SimplifyPhi(ph); r != nil {
+				v = r
+				continue
+			}
+			return v
+		}
 		ld, ok := v.(*ssa.UnOp)
 		if !ok || ld.Op != token.MUL {
 			return v
@@ -261,4 +270,205 @@ func onlyLoaded(addr ssa.Value) bool {
 		}
 	}
 	return true
+}
+
+// ---------------------------------------------------------------------------
+// Correlated merges. An unwrapped helper with several returns leaves behind
+// result temporaries that are phis of one block B, which then branches on one
+// of them (`if err != nil`, `if done`). A value phi whose every use lies beyond
+// one successor edge of B can only carry the incoming values that select that
+// edge: on the success edge, `args` is what the helper returned together with a
+// nil error. SimplifyPhi returns that single value, or nil.
+
+var phiCache = map[*ssa.Phi]ssa.Value{}
+var phiDone = map[*ssa.Phi]bool{}
+
+// nonNilOnEdge: v is known to be non-nil when control arrives from pred.
+func nonNilOnEdge(v ssa.Value, pred *ssa.BasicBlock) bool {
+	if _, ok := v.(*ssa.MakeInterface); ok {
+		return true
+	}
+	// walk back through single-predecessor blocks to an `if v != nil` whose true side we are on
+	b := pred
+	for i := 0; i < 8 && b != nil; i++ {
+		if len(b.Preds) != 1 {
+			return false
+		}
+		p := b.Preds[0]
+		if iff, ok := p.Instrs[len(p.Instrs)-1].(*ssa.If); ok {
+			if bo, ok := iff.Cond.(*ssa.BinOp); ok && (bo.Op == token.NEQ || bo.Op == token.EQL) {
+				var other ssa.Value
+				if bo.X == v {
+					other = bo.Y
+				} else if bo.Y == v {
+					other = bo.X
+				}
+				if k, isC := other.(*ssa.Const); isC && k.IsNil() {
+					onTrue := p.Succs[0] == b
+					return (bo.Op == token.NEQ) == onTrue
+				}
+			}
+		}
+		b = p
+	}
+	return false
+}
+
+// selectedSucc: the successor of b taken when entered through predecessor index i, or -1.
+func selectedSucc(b *ssa.BasicBlock, i int) int {
+	if len(b.Instrs) == 0 {
+		return -1
+	}
+	iff, ok := b.Instrs[len(b.Instrs)-1].(*ssa.If)
+	if !ok {
+		return -1
+	}
+	v := iff.Cond
+	neg := false
+	for {
+		if u, ok := v.(*ssa.UnOp); ok && u.Op == token.NOT {
+			v, neg = u.X, !neg
+			continue
+		}
+		break
+	}
+	res := func(val bool) int {
+		if val != neg {
+			return 0
+		}
+		return 1
+	}
+	if ph, ok := resolveLoadOnly(v).(*ssa.Phi); ok && ph.Block() == b && i < len(ph.Edges) {
+		if c, ok := ph.Edges[i].(*ssa.Const); ok && c.Value != nil {
+			switch c.Value.String() {
+			case "true":
+				return res(true)
+			case "false":
+				return res(false)
+			}
+		}
+		return -1
+	}
+	if bo, ok := v.(*ssa.BinOp); ok && (bo.Op == token.EQL || bo.Op == token.NEQ) {
+		var ph *ssa.Phi
+		var other ssa.Value
+		// the operand may be a load of a cell (a named result) that was just stored from the phi
+		bx, by := resolveLoadOnly(bo.X), resolveLoadOnly(bo.Y)
+		if p, ok := bx.(*ssa.Phi); ok && p.Block() == b {
+			ph, other = p, by
+		} else if p, ok := by.(*ssa.Phi); ok && p.Block() == b {
+			ph, other = p, bx
+		}
+		k, isC := other.(*ssa.Const)
+		if ph == nil || !isC || !k.IsNil() || i >= len(ph.Edges) {
+			return -1
+		}
+		in := ph.Edges[i]
+		if c, ok := in.(*ssa.Const); ok && c.IsNil() {
+			return res(bo.Op == token.EQL)
+		}
+		if nonNilOnEdge(in, b.Preds[i]) {
+			return res(bo.Op == token.NEQ)
+		}
+	}
+	return -1
+}
+
+// SimplifyPhi: see above.
+func SimplifyPhi(ph *ssa.Phi) ssa.Value {
+	if phiDone[ph] {
+		return phiCache[ph]
+	}
+	phiDone[ph] = true
+	b := ph.Block()
+	if _, ok := b.Instrs[len(b.Instrs)-1].(*ssa.If); !ok {
+		return nil
+	}
+	refs := ph.Referrers()
+	if refs == nil || len(*refs) == 0 {
+		return nil
+	}
+	dbg := os.Getenv("VERIF_DEBUG_PHI") != ""
+	if dbg {
+		fmt.Printf("SimplifyPhi %s in %s b%d: %d refs\n", ph.Name(), b.Parent().Name(), b.Index, len(*refs))
+		for _, r := range *refs {
+			fmt.Printf("   ref %T in b%d\n", r, r.Block().Index)
+		}
+		for i := range ph.Edges {
+			fmt.Printf("   edge %d from b%d sel=%d\n", i, b.Preds[i].Index, selectedSucc(b, i))
+		}
+	}
+	for s := 0; s < 2; s++ {
+		tgt := b.Succs[s]
+		if len(tgt.Preds) != 1 {
+			continue
+		}
+		all := true
+		for _, r := range *refs {
+			if r.Block() == b {
+				if _, isIf := r.(*ssa.If); isIf {
+					continue
+				}
+				// the branch condition itself may be computed from the phi in b
+				if _, isBin := r.(*ssa.BinOp); isBin {
+					continue
+				}
+				all = false
+				break
+			}
+			if !tgt.Dominates(r.Block()) {
+				all = false
+				break
+			}
+		}
+		if !all {
+			continue
+		}
+		var val ssa.Value
+		ok := true
+		n := 0
+		for i := range ph.Edges {
+			sel := selectedSucc(b, i)
+			if sel >= 0 && sel != s {
+				continue // this incoming value cannot reach the uses
+			}
+			n++
+			if val == nil {
+				val = ph.Edges[i]
+			} else if val != ph.Edges[i] {
+				ok = false
+			}
+		}
+		if ok && val != nil && n < len(ph.Edges) && val != ssa.Value(ph) {
+			phiCache[ph] = val
+			return val
+		}
+	}
+	return nil
+}
+
+// resolveLoadOnly sees through a load of a local cell whose nearest store (in
+// straight-line code) is known, without simplifying phis (used while a phi is
+// being simplified).
+func resolveLoadOnly(v ssa.Value) ssa.Value {
+	for i := 0; i < 4; i++ {
+		ld, ok := v.(*ssa.UnOp)
+		if !ok || ld.Op != token.MUL {
+			return v
+		}
+		a, ok := ld.X.(*ssa.Alloc)
+		if !ok {
+			return v
+		}
+		if val, ok := CellValue(a); ok {
+			v = val
+			continue
+		}
+		val := nearestStore(ld, a)
+		if val == nil {
+			return v
+		}
+		v = val
+	}
+	return v
 }
